@@ -759,7 +759,13 @@ pub fn hex_eth(a: &Eth) -> String {
     hex::encode(a)
 }
 
-#[allow(dead_code)]
-fn unused(_: Value) -> Value {
-    json!(null)
+// ------------------------------------------------------------------------------------------------
+// Part 2: the C19 driver (`drive evmcalls ...`)
+
+pub fn main(_args: &[String]) {
+    self_test();
+    let _ = json!(null);
+    let _: Option<Value> = None;
+    eprintln!("evmcalls: not built yet");
+    std::process::exit(2);
 }
